@@ -173,6 +173,12 @@ def run(ck, pid, tier, bdir, drv):
     for name, mode, a, b in progs:
         pg = Prog(name, mode, a, b, drv, bdir)
         ref = pg.run()
+        if ref["rc"] != 0 and name.endswith("-late") and ref["rc"] == 3:
+            # a library that refuses (with a diagnostic) to free a thread after ovni_proc_fini is not wrong:
+            # the order is tolerated today, not promised
+            ck.notes.setdefault("two_thread_programs_skipped", []).append(
+                "%s: the library refuses the late ovni_thread_free: %s" % (name, ref["stderr"][-200:]))
+            continue
         if ref["rc"] != 0:
             raise core.MachineryError("reference run of %s failed: rc=%s %s" % (name, ref["rc"], ref["stderr"][-400:]))
         full = dict(ref["flushed"])
